@@ -461,10 +461,19 @@ class Lib:
             ex.n += 1
             fz = z3.Function("%s@%s!%d" % (g.name, short, ex.n), *([a.sort() for a in asorts] + [rt.sort()]))
             scope[g.name] = (fz, asorts, rt)
+        for g in callee.global_ghosts:
+            if g.name not in ex.ghost_fns:
+                ex.declare_global(g)
         ex.ghost_scope.append(scope)
         try:
             s2 = st.fork()
             s2.env = dict(bound)
+            if callee.global_ghosts:
+                s2g = s2.fork()
+                s2g.hyps = st.hyps
+                for g in callee.global_ghosts:
+                    for ax in g.axioms:
+                        ex.assume(st, self._spec_in(ex, st, s2g, ax))
             s2.old = dict(bound)
             s2.hyps = st.hyps   # share: definitional axioms go to the caller's path
             for g in callee.ghosts:
@@ -502,6 +511,10 @@ class Lib:
                 exc_conds.append(cz)
                 g = z3.And(*(st.guards + [cz])) if st.guards else cz
                 st.pending_exc.append((g, exc))
+            if callee.result_fn:
+                f, asorts, rt = ex.ghost_fns[callee.result_fn]
+                pn = [p for p in callee.params if p not in callee.modifies and p != "self"]
+                ex.assume(st, res.z == f(*[ex.coerce(bound[p], t).z for p, t in zip(pn, asorts)]))
             for e in callee.ensures:
                 ez = self._spec_in(ex, st, s3, e)
                 if exc_conds and not getattr(callee, "raises_exact", False):
@@ -608,13 +621,28 @@ class Lib:
             pushed = 0
             try:
                 for gen in gens:
-                    n, getter = self.iteration(ex, st, gen.iter)
-                    j = ex.bvar("q")
-                    vs.append(j)
-                    ex.push_binder(st, [j], z3.And(0 <= j, j < n))
-                    pushed += 1
-                    conds.append(z3.And(0 <= j, j < n))
-                    ex.assign_to(st, gen.target, getter(st, j), node)
+                    it = gen.iter
+                    if (isinstance(it, ast.Call) and isinstance(it.func, ast.Name) and it.func.id == "range"
+                            and len(it.args) <= 2 and isinstance(gen.target, ast.Name)):
+                        # quantify over the python variable itself (keeps index terms free of arithmetic,
+                        # which e-matching needs): lo <= i < hi
+                        ra = [ex.to_int(ex.ev(st, a_)) for a_ in it.args]
+                        lo, hi = (z3.IntVal(0), ra[0]) if len(ra) == 1 else (ra[0], ra[1])
+                        j = ex.bvar(gen.target.id)
+                        vs.append(j)
+                        rng = z3.And(lo <= j, j < hi)
+                        ex.push_binder(st, [j], rng)
+                        pushed += 1
+                        conds.append(rng)
+                        st.env[gen.target.id] = SV(INT, j)
+                    else:
+                        n, getter = self.iteration(ex, st, gen.iter)
+                        j = ex.bvar("q")
+                        vs.append(j)
+                        ex.push_binder(st, [j], z3.And(0 <= j, j < n))
+                        pushed += 1
+                        conds.append(z3.And(0 <= j, j < n))
+                        ex.assign_to(st, gen.target, getter(st, j), node)
                     for c in gen.ifs:
                         conds.append(ex.truth(ex.ev(st, c)))
                 elt = a.elt
@@ -880,8 +908,8 @@ def psum_fn(ex, st, a):
     rs = z3.IntSort() if et in (INT, BOOL) else z3.RealSort()
     f = ex.uf("psum_" + a.t.key(), a.t.sort(), z3.IntSort(), rs)
     key = ("psum-ax", a.z.get_id())
-    if key not in ex.ufs:
-        ex.ufs[key] = True
+    if key not in st.seen:
+        st.seen.add(key)
         k = ex.bvar("k")
         aa = a.t.arr(a.z)
         term = aa[k] if et != BOOL else z3.If(aa[k], 1, 0)
@@ -932,8 +960,8 @@ def mask_select(ex, st, a, m, node):
     j = ex.bvar("j")
     i = ex.bvar("i")
     c = cnt(m.z)
-    if key not in ex.ufs:
-        ex.ufs[key] = True
+    if key not in st.seen:
+        st.seen.add(key)
         ex.assume(st, z3.And(0 <= c, c <= n))
         ex.assume(st, z3.ForAll([j], z3.Implies(z3.And(0 <= j, j < c),
                                                 z3.And(0 <= pos(m.z, j), pos(m.z, j) < n, ma[pos(m.z, j)],
@@ -1040,8 +1068,8 @@ def flatten(ex, st, a):
     rt = TSeq(inner.elem, "list")
     r = SV(rt, res(a.z))
     key = ("flat-ax", a.z.get_id())
-    if key not in ex.ufs:
-        ex.ufs[key] = True
+    if key not in st.seen:
+        st.seen.add(key)
         n = ex.seq_len(a)
         aa = a.t.arr(a.z)
         k = ex.bvar("k")
